@@ -181,3 +181,16 @@ VARIANTS += [
            [(FM, _SLICE, "        if getattr(obj, \"fundamental\", False):\n            break\n" + _SLICE)],
            ("C06", "C10")),
 ]
+
+UNI = "src/jaqalpaq/emulator/unitary.py"
+
+VARIANTS += [
+    # ---- hunt wave 8 (C16): allocation of the state vector (repo fix)
+    fire("r12-state-vector-allocation-unguarded",
+         [(UNI, "        try:\n            inp = numpy.empty(hilb_dim, dtype=complex)\n            vec = numpy.zeros(hilb_dim, dtype=complex)\n        except (ValueError, MemoryError, OverflowError) as exc:\n            raise JaqalError(\n                f\"Cannot emulate {n_qubits} qubits: the state vector does not fit in memory\"\n            ) from exc\n",
+           "        inp = numpy.empty(hilb_dim, dtype=complex)\n        vec = numpy.zeros(hilb_dim, dtype=complex)\n")],
+         ("C16.37", "_make_subcircuit:state-vector-allocation"), ("C16",)),
+    fire("r12-state-vector-allocation-memoryerror-only",
+         [(UNI, "        except (ValueError, MemoryError, OverflowError) as exc:\n", "        except MemoryError as exc:\n")],
+         ("C16.37", "_make_subcircuit:state-vector-allocation"), ("C16",)),
+]
